@@ -293,6 +293,202 @@ theorem returned_value_after_its_finish (n : Nat) (t1 t2 : List Ev) (k : Nat) (c
   | seeCancelled k' => simp [osys, shows] at hsh
   | settled => simp [osys, shows] at hsh
 
+/-- every step of the traced system either leaves the model component alone or is one step of the hedge model -/
+theorem step_core (t t' : TS) (a : TraceHedge.Act) (h : TraceHedge.step t a = some t') :
+    t'.core = t.core ∨ ∃ x, Hedge.step t.core x = some t'.core := by
+  have map_core : ∀ (x : Hedge.Act) (f : St → TS), (Hedge.step t.core x).map f = some t' → (∀ s, (f s).core = s) →
+      Hedge.step t.core x = some t'.core := by
+    intro x f hm hf
+    cases hs : Hedge.step t.core x with
+    | none => simp [hs] at hm
+    | some s => simp only [hs, Option.map_some, Option.some.injEq] at hm; subst hm; rw [hf s]
+  cases a with
+  | launchFirst => simp only [TraceHedge.step] at h; split at h; exact Or.inr ⟨_, map_core _ _ h (fun _ => rfl)⟩; cases h
+  | launchHedge => simp only [TraceHedge.step] at h; split at h; exact Or.inr ⟨_, map_core _ _ h (fun _ => rfl)⟩; cases h
+  | timer => exact Or.inr ⟨.timer, map_core .timer _ (by simpa [TraceHedge.step] using h) (fun _ => rfl)⟩
+  | recv => exact Or.inr ⟨.recv, map_core .recv _ (by simpa [TraceHedge.step] using h) (fun _ => rfl)⟩
+  | count k c => simp only [TraceHedge.step] at h; split at h; exact Or.inr ⟨_, map_core _ _ h (fun _ => rfl)⟩; cases h
+  | trySend k c f => exact Or.inr ⟨.trySend k c f, map_core (.trySend k c f) _ (by simpa [TraceHedge.step] using h) (fun _ => rfl)⟩
+  | fnRet k c =>
+    simp only [TraceHedge.step] at h; split at h
+    · simp only [Option.some.injEq] at h; subst h; exact Or.inl rfl
+    · cases h
+  | enter k =>
+    simp only [TraceHedge.step] at h; split at h
+    · simp only [Option.some.injEq] at h; subst h; exact Or.inl rfl
+    · cases h
+  | callerRet k =>
+    simp only [TraceHedge.step] at h; split at h
+    · simp only [Option.some.injEq] at h; subst h; exact Or.inl rfl
+    · cases h
+  | seeCancelled k =>
+    simp only [TraceHedge.step] at h; split at h
+    · simp only [Option.some.injEq] at h; subst h; exact Or.inl rfl
+    · cases h
+  | settled =>
+    simp only [TraceHedge.step] at h; split at h
+    · simp only [Option.some.injEq] at h; subst h; exact Or.inl rfl
+    · cases h
+
+/-- once the call has returned, the cancelled set is exactly the started attempts other than the accepted one -/
+def CancOk (s : St) : Prop :=
+  s.returned = true → ∃ x, s.accepted = some x ∧ s.cancelled = (List.range s.launched).filter (· ≠ x.1)
+
+/-- after the return nothing the model can do changes what was accepted or how many attempts were started -/
+theorem after_return_step (s s' : St) (a : Hedge.Act) (hi : Inv s) (hr : s.returned = true) (hs : Hedge.step s a = some s') :
+    s'.returned = true ∧ s'.accepted = s.accepted ∧ s'.launched = s.launched ∧ s'.cancelled = s.cancelled := by
+  cases a with
+  | launch =>
+    simp only [Hedge.step] at hs; split at hs
+    · rename_i hg; exact absurd hr hg.1
+    · cases hs
+  | timer =>
+    simp only [Hedge.step] at hs; split at hs
+    · simp only [Option.some.injEq] at hs; subst hs; exact ⟨hr, rfl, rfl, rfl⟩
+    · cases hs
+  | recv =>
+    have hc : s.chan = none := (hi.accSent (hi.retAcc hr)).2
+    simp [Hedge.step, hc] at hs
+  | count k c =>
+    simp only [Hedge.step] at hs; split at hs
+    · simp only [Option.some.injEq] at hs; subst hs; exact ⟨hr, rfl, rfl, rfl⟩
+    · cases hs
+  | trySend k c f =>
+    simp only [Hedge.step] at hs; split at hs
+    · split at hs <;> (simp only [Option.some.injEq] at hs; subst hs; exact ⟨hr, rfl, rfl, rfl⟩)
+    · cases hs
+
+theorem cancOk_step (s s' : St) (a : Hedge.Act) (hi : Inv s) (h : CancOk s) (hs : Hedge.step s a = some s') : CancOk s' := by
+  by_cases hr : s.returned = true
+  · obtain ⟨h1, h2, h3, h4⟩ := after_return_step s s' a hi hr hs
+    intro _
+    obtain ⟨x, hx1, hx2⟩ := h hr
+    exact ⟨x, by rw [h2, hx1], by rw [h4, h3, hx2]⟩
+  · cases a with
+    | launch =>
+      simp only [Hedge.step] at hs; split at hs
+      · simp only [Option.some.injEq] at hs; subst hs; intro h'; exact absurd h' hr
+      · cases hs
+    | timer =>
+      simp only [Hedge.step] at hs; split at hs
+      · simp only [Option.some.injEq] at hs; subst hs; intro h'; exact absurd h' hr
+      · cases hs
+    | recv =>
+      simp only [Hedge.step] at hs; split at hs
+      · split at hs
+        · rename_i x _
+          simp only [Option.some.injEq] at hs; subst hs; intro _; exact ⟨x, rfl, rfl⟩
+        · cases hs
+      · cases hs
+    | count k c =>
+      simp only [Hedge.step] at hs; split at hs
+      · simp only [Option.some.injEq] at hs; subst hs; intro h'; exact absurd h' hr
+      · cases hs
+    | trySend k c f =>
+      simp only [Hedge.step] at hs; split at hs
+      · split at hs <;> (simp only [Option.some.injEq] at hs; subst hs; intro h'; exact absurd h' hr)
+      · cases hs
+
+theorem reach_cancOk (n : Nat) (t : TS) (h : Trace.Reach (osys n) t) : CancOk t.core := by
+  induction h with
+  | init => intro h; simp [osys, Hedge.init] at h
+  | step t t' a hr _ hst ih =>
+    rcases step_core t t' a hst with h1 | ⟨x, h1⟩
+    · rw [h1]; exact ih
+    · exact cancOk_step _ _ x (reach_inv n t hr) ih h1
+
+/-- along any run that starts after the return, the accepted value and the number of started attempts stay what they were -/
+theorem after_return_run (n : Nat) (a b : TS) (tr : List Ev) (h : Trace.Run (osys n) a tr b) (ha : Trace.Reach (osys n) a)
+    (hr : a.core.returned = true) : b.core.returned = true ∧ b.core.accepted = a.core.accepted := by
+  induction h with
+  | nil s => exact ⟨hr, rfl⟩
+  | silent s s' s'' x tr hm hs hst _ ih =>
+    have hreach := Trace.Reach.step s s' x ha hm hst
+    rcases step_core s s' x hst with h1 | ⟨y, h1⟩
+    · have := ih hreach (by rw [h1]; exact hr); rw [h1] at this; exact this
+    · obtain ⟨q1, q2, _, _⟩ := after_return_step _ _ y (reach_inv n s ha) hr h1
+      have := ih hreach q1; rw [q2] at this; exact this
+  | vis s s' s'' x e tr hm hs hsh hst _ ih =>
+    have hreach := Trace.Reach.step s s' x ha hm hst
+    rcases step_core s s' x hst with h1 | ⟨y, h1⟩
+    · have := ih hreach (by rw [h1]; exact hr); rw [h1] at this; exact this
+    · obtain ⟨q1, q2, _, _⟩ := after_return_step _ _ y (reach_inv n s ha) hr h1
+      have := ih hreach q1; rw [q2] at this; exact this
+
+/-- **on traces**: in every trace the model can show — hence in every recorded hedged run the acceptor accepts — once the caller has been
+handed attempt `w`'s value, every later `IsCanceled()` reading of a started attempt is `true` for every attempt other than `w` and `false`
+for `w` itself: all outstanding attempts are cancelled, the accepted one is not -/
+theorem readings_after_return_on_traces (n : Nat) (t1 t2 t3 : List Ev) (w k : Nat) (b : Bool) (c : TS)
+    (h : Trace.Run (osys n) (osys n).init (t1 ++ Ev.callerRet w :: (t2 ++ Ev.seeCancelled k b :: t3)) c) : b = decide (k ≠ w) := by
+  obtain ⟨b1, hb1, hb2⟩ := Trace.Run.split_append t1 _ h
+  obtain ⟨b2, hb3, hb4⟩ := Trace.Run.split_cons hb2
+  obtain ⟨s, s', x, htau, hx, hsil, hsh, hst, htau2⟩ := Trace.Run.single_vis hb3
+  obtain ⟨b3, hb5, hb6⟩ := Trace.Run.split_append t2 _ hb4
+  obtain ⟨b4, hb7, _⟩ := Trace.Run.split_cons hb6
+  obtain ⟨u, u', y, htau3, hy, hsil2, hsh2, hst2, _⟩ := Trace.Run.single_vis hb7
+  have hrun_s : Trace.Run (osys n) (osys n).init t1 s := by
+    have := Trace.Run.append hb1 (Trace.Run.of_tau htau (Trace.Run.nil s))
+    simpa using this
+  have hreach_s : Trace.Reach (osys n) s := Trace.Run.reach hrun_s Trace.Reach.init
+  have hreach_s' : Trace.Reach (osys n) s' := Trace.Reach.step s s' x hreach_s hx hst
+  have hrun_u : Trace.Run (osys n) s' t2 u := by
+    have := Trace.Run.append (Trace.Run.of_tau htau2 hb5) (Trace.Run.of_tau htau3 (Trace.Run.nil u))
+    simpa using this
+  have hreach_u : Trace.Reach (osys n) u := Trace.Run.reach hrun_u hreach_s'
+  cases x with
+  | callerRet w' =>
+    have hw : w' = w := by
+      have h0 : shows s (.callerRet w') (.callerRet w) = true := hsh
+      simpa [shows] using h0
+    subst hw
+    have hg : s.core.returned = true ∧ (s.core.accepted.map (·.1)) = some w' := by
+      simp only [osys, TraceHedge.step] at hst; split at hst
+      · assumption
+      · cases hst
+    have hss : s' = s := by
+      have h9 : TraceHedge.step s (.callerRet w') = some s' := hst
+      simp only [TraceHedge.step, hg, and_self, ↓reduceIte, Option.some.injEq] at h9
+      exact h9.symm
+    subst hss
+    obtain ⟨hru, hacc⟩ := after_return_run n _ _ _ hrun_u hreach_s' hg.1
+    obtain ⟨xx, hx1, hx2⟩ := reach_cancOk n u hreach_u hru
+    have hxw : xx.1 = w' := by
+      have := hg.2; rw [← hacc, hx1] at this; simpa using this
+    cases y with
+    | seeCancelled k' =>
+      have h0 : shows u (.seeCancelled k') (.seeCancelled k b) = true := hsh2
+      simp only [shows, Bool.and_eq_true, beq_iff_eq] at h0
+      obtain ⟨hk, hb⟩ := h0
+      subst hk
+      have hlt : k' < u.core.launched := by
+        simp only [osys, TraceHedge.step] at hst2; split at hst2
+        · rename_i hh; exact hh.2
+        · cases hst2
+      rw [← hb, hx2, hxw]
+      by_cases hkw : k' = w'
+      · subst hkw; simp
+      · simp [hkw, hlt]
+    | launchFirst => simp [osys, shows] at hsh2
+    | launchHedge => simp [osys, shows] at hsh2
+    | timer => simp [osys, shows] at hsh2
+    | recv => simp [osys, shows] at hsh2
+    | fnRet k' c' => simp [osys, shows] at hsh2
+    | count k' c' => simp [osys, shows] at hsh2
+    | trySend k' c' f' => simp [osys, shows] at hsh2
+    | enter k' => simp [osys, shows] at hsh2
+    | callerRet k' => simp [osys, shows] at hsh2
+    | settled => simp [osys, shows] at hsh2
+  | launchFirst => simp [osys, shows] at hsh
+  | launchHedge => simp [osys, shows] at hsh
+  | timer => simp [osys, shows] at hsh
+  | recv => simp [osys, shows] at hsh
+  | fnRet k' c' => simp [osys, shows] at hsh
+  | count k' c' => simp [osys, shows] at hsh
+  | trySend k' c' f' => simp [osys, shows] at hsh
+  | enter k' => simp [osys, shows] at hsh
+  | seeCancelled k' => simp [osys, shows] at hsh
+  | settled => simp [osys, shows] at hsh
+
 /-- non-vacuity, decided by running the acceptor (maxHedges = 1): the hedge wins and the first attempt is cancelled — accepted; the
 caller handed the value of an attempt that has not finished, a third attempt, or a winner that reads cancelled — rejected -/
 example : (Trace.accepts (osys 2) 30 [.enter 0, .hedge, .enter 1, .finish 1 true, .callerRet 1, .seeCancelled 0 true, .seeCancelled 1 false, .finish 0 false]).map (·.isEmpty) = some false := by decide
